@@ -34,6 +34,14 @@ fn threaded_plans(tier: Tier, base: &Outcome) -> Vec<Plan> {
             let mut p = Plan::default(); p.controls.insert(k, c); plans.push(p);
         }
     }
+    // a user call that lands while the client is reconnecting: every fatal deviation x every call right after the connection loss
+    for i in 0..base.reads { for d in [ReadDev::Eof, ReadDev::Err] { for c in [Control::Close, Control::CloseThenSubmit, Control::Stop, Control::StopDisconnect, Control::StopThenStart] {
+        if tier == Tier::Quick && (i + c as usize) % 2 != 0 { continue; }
+        let mut p = Plan::default(); p.reads.insert(i, d); p.on_drop.insert(0, c); plans.push(p);
+    } } }
+    for i in 0..base.writes { for c in [Control::Close, Control::CloseThenSubmit, Control::Stop, Control::StopDisconnect, Control::StopThenStart] {
+        let mut p = Plan::default(); p.writes.insert(i, WriteDev::Err); p.on_drop.insert(0, c); plans.push(p);
+    } }
     plans.sort(); plans.dedup();
     plans
 }
@@ -50,7 +58,7 @@ fn run_driver(report: &mut Report, known: &KnownFindings, tier: Tier, driver: &s
     let mut distinct: HashSet<u64> = HashSet::new();
     let mut first: BTreeMap<String, (String, Outcome)> = BTreeMap::new();
     let mut machinery = 0;
-    let size = |p: &Plan| p.reads.len() + p.writes.len() + p.flush_errors.len() + p.controls.len() + p.refuse.len();
+    let size = |p: &Plan| p.reads.len() + p.writes.len() + p.flush_errors.len() + p.controls.len() + p.on_drop.len() + p.refuse.len();
     for o in std::iter::once(&base).chain(outcomes.iter()) {
         distinct.insert(o.digest());
         if !o.machinery.is_empty() { machinery += 1; if machinery <= 3 { report.machinery_errors.push(format!("{} plan {:?}: {:?}", driver, o.plan, o.machinery)); } continue; }
@@ -110,6 +118,7 @@ pub fn debug_plan(driver: &str, spec: &str) -> i32 {
             "w" => { plan.writes.insert(index, match value { "One" => WriteDev::One, "AllButOne" => WriteDev::AllButOne, "Block" => WriteDev::Block, "Interrupted" => WriteDev::Interrupted, "Zero" => WriteDev::Zero, _ => WriteDev::Err }); }
             "f" => plan.flush_errors.push(index),
             "x" => plan.refuse.push(index),
+            "d" => { plan.on_drop.insert(index, match value { "Close" => Control::Close, "CloseThenSubmit" => Control::CloseThenSubmit, "SubmitThenClose" => Control::SubmitThenClose, "Stop" => Control::Stop, "StopDisconnect" => Control::StopDisconnect, _ => Control::StopThenStart }); }
             "c" => { plan.controls.insert(index, match value { "Close" => Control::Close, "CloseThenSubmit" => Control::CloseThenSubmit, "SubmitThenClose" => Control::SubmitThenClose, "Stop" => Control::Stop, "StopDisconnect" => Control::StopDisconnect, _ => Control::StopThenStart }); }
             _ => {}
         }
